@@ -1517,6 +1517,131 @@ func intersect(a, b lockset) lockset {
 	return n
 }
 
+// closureEntryLocks: the locks certainly held whenever the function literal f
+// runs, when f is only ever called synchronously from its parent: called
+// directly, or handed as an argument to a module function that does nothing
+// with that parameter but call it (a visitor passed to an iterator helper).
+// Anything else - go, defer, stored, returned - gives the empty set.
+func (w *World) closureEntryLocks(f *ssa.Function) lockset {
+	par := f.Parent()
+	if par == nil {
+		return nil
+	}
+	var mcs []ssa.Value
+	for _, in := range instrs(par) {
+		if mc, ok := in.(*ssa.MakeClosure); ok && mc.Fn == ssa.Value(f) {
+			mcs = append(mcs, mc)
+		}
+	}
+	if len(mcs) == 0 {
+		// a literal without captures is referred to as a plain function value
+		mcs = append(mcs, f)
+	}
+	pst := lockStates(par, w.closureEntryLocks(par))
+	var acc lockset
+	meet := func(ls lockset) {
+		if acc == nil {
+			acc = ls.clone()
+			return
+		}
+		for k := range acc {
+			if !ls[k] {
+				delete(acc, k)
+			}
+		}
+	}
+	onlyCalls := func(g *ssa.Function, idx int) bool {
+		if g == nil || g.Blocks == nil || idx >= len(g.Params) {
+			return false
+		}
+		p := g.Params[idx]
+		if p.Referrers() == nil {
+			return true
+		}
+		for _, u := range *p.Referrers() {
+			switch x := u.(type) {
+			case *ssa.Call:
+				if x.Call.Value != ssa.Value(p) {
+					return false
+				}
+			case *ssa.DebugRef:
+			default:
+				return false
+			}
+		}
+		return true
+	}
+	uses := 0
+	for _, mc := range mcs {
+		// the closure value itself and the local variables it is copied to
+		vals := map[ssa.Value]bool{mc: true}
+		for _, in := range instrs(par) {
+			c, isCall := in.(*ssa.Call)
+			if !isCall {
+				if d, isD := in.(*ssa.Defer); isD {
+					for _, a := range append([]ssa.Value{d.Call.Value}, d.Call.Args...) {
+						if vals[a] {
+							return lockset{}
+						}
+					}
+				}
+				if g, isG := in.(*ssa.Go); isG {
+					for _, a := range append([]ssa.Value{g.Call.Value}, g.Call.Args...) {
+						if vals[a] {
+							return lockset{}
+						}
+					}
+				}
+				continue
+			}
+			direct := false
+			for _, l := range resolveAll(c.Call.Value) {
+				if vals[l] {
+					direct = true
+				}
+			}
+			if direct && !c.Call.IsInvoke() {
+				uses++
+				meet(pst[in])
+				continue
+			}
+			for k, a := range c.Call.Args {
+				hit := vals[a]
+				for _, l := range resolveAll(a) {
+					if vals[l] {
+						hit = true
+					}
+				}
+				if !hit {
+					continue
+				}
+				callee := c.Call.StaticCallee()
+				idx := k
+				if callee == nil || !onlyCalls(callee, idx) {
+					return lockset{}
+				}
+				uses++
+				meet(pst[in])
+			}
+		}
+		// stored anywhere: unknown callers
+		if inst, isI := mc.(ssa.Instruction); isI {
+			if v, isV := inst.(ssa.Value); isV && v.Referrers() != nil {
+				for _, u := range *v.Referrers() {
+					switch u.(type) {
+					case *ssa.Store, *ssa.Return, *ssa.MakeInterface, *ssa.Send, *ssa.MapUpdate:
+						return lockset{}
+					}
+				}
+			}
+		}
+	}
+	if uses == 0 || acc == nil {
+		return lockset{}
+	}
+	return acc
+}
+
 // lockStates computes the must-hold lockset before every instruction of f.
 // entry is the lockset assumed at function entry (for helpers documented as
 // "caller must hold"). Deferred unlocks keep the lock held until exit.
